@@ -262,6 +262,7 @@ VERIF_FAIL_MSGS = (
     'decreases not satisfied', 'could not prove termination', 'possible bit shift underflow/overflow',
     'unreachable', 'index out of bounds', 'might not be allowed', 'failed this',
     'cannot show invariant', 'loop invariant', 'recommendation not met', 'possible overflow', 'assertion failure',
+    'unable to prove', 'not satisfied', 'might fail', 'possible',
 )
 RLIMIT_MSGS = ('Resource limit', 'rlimit', 'timed out', 'timeout')
 
